@@ -2,6 +2,7 @@
 
 JOBS = 5          # concurrent CBMC processes per check (memory bound: winners use 1-8 GB)
 MEM_GB = 36       # RLIMIT_AS per process
+REPLAY_MEM_GB = 56  # the concrete-playback solve of a counterexample runs alone, without formula slicing
 
 # slice/array `==` is CBMC's builtin memcmp loop: give that one loop its own bound so that the global
 # unwinding bound of a harness can stay small (largest compared object: 64 bytes)
@@ -22,6 +23,9 @@ WRAP_CFG = {
     "unwindset": [
         [r"core::primitives::xor_2::<", 33],
         [r"core::primitives::xor_in_place::<", 33],
+        # any other small byte-loop helper of primitives.rs (constant-time comparisons, XORs, ...): same bound, so that
+        # a change introducing one does not merely trip the harness' small global bound
+        [r"^core::primitives::(?!(verif_k|verif_k2|c_decaps|h_decaps|full_decaps|c_encaps|h_encaps|decaps|encaps|shuffle|refresh|refresh_coordinate_keys|rekey|update_msk|prune|sign|verify|usk_keygen|setup)\b)\w+", 33],
     ],
 }
 WRAP_ASSUMPTIONS = [
@@ -118,10 +122,27 @@ H("g1_kem_hybrid_1x1", "primitives_model", ["C01", "C11"], "thorough", build="mo
 H("s_kem_classic_unauthorized", "primitives_model", ["C02"], "quick", build="model", unwind=2, timeout=1500, loops=TRAP_LOOPS,
   desc="decaps with a key whose only secret differs from the target's returns None, never a secret",
   bounds=K_BOUNDS + "; user secret y != target secret x", covers=["decaps returned None"])
-H("n_classic_single_tamper", "primitives_model", ["C07"], "quick", build="model", unwind=2, timeout=1800, loops=TRAP_LOOPS,
-  desc="an honest classic encapsulation with one component altered (any tag byte, any byte of the masked seed, any trap; "
-       "symbolic position and delta) is never opened by the authorized key",
-  bounds=K_BOUNDS, covers=["tag altered", "masked seed altered", "trap altered"])
+for _n, _c, _w in [("n_tamper_tag_byte", "tag altered", "any byte of the tag (symbolic position, non-zero delta)"),
+                   ("n_tamper_masked_seed_byte", "masked seed altered", "any byte of the masked seed F (symbolic position, non-zero delta)"),
+                   ("n_tamper_trap", "trap altered", "either trap replaced by a different point")]:
+    H(_n, "primitives_model", ["C07"], "quick", build="model", unwind=2, timeout=1800, loops=TRAP_LOOPS,
+      desc="an honest classic encapsulation with " + _w + " is never opened by the authorized key",
+      bounds=K_BOUNDS, covers=[_c])
+H("g1_kem_classic_enc_hybrid_key", "primitives_model", ["C01", "C11"], "quick", build="model", unwind=2, timeout=1800, loops=TRAP_LOOPS,
+  desc="a classic encapsulation made for a hybridized right is opened by the key holding that right's hybridized secret",
+  bounds=K_BOUNDS + "; ideal KEM key symbolic", covers=["decaps returned Some"])
+H("u_decaps_degenerate_encapsulations", "primitives_model", ["C14"], "quick", build="model", unwind=3, timeout=1500, loops=TRAP_LOOPS,
+  desc="decaps on encapsulations only a parser can build (no right-encapsulation, either flavour; no trap): Ok(None), no panic",
+  bounds="valid 1-right user key; tag symbolic; flavour and presence of traps symbolic",
+  covers=["hybridized, no right-encapsulation", "classic, no trap"])
+H("w_encaps_fresh_per_seed", "primitives_model", ["C16"], "quick", build="model", unwind=2, timeout=1800, loops=TRAP_LOOPS,
+  desc="two c_encaps calls with different seeds give different tags and different session secrets",
+  bounds=K_BOUNDS + "; two seeds assumed different (RNG contract)", covers=["two encapsulations"])
+H("y_full_decaps_1x1", "primitives_model", ["C18"], "quick", build="model", unwind=2, timeout=1800,
+  loops=TRAP_LOOPS + [[r"std::option::Option<", 4]],  # the model map's 3 inline slots
+  desc="full_decaps on an honest 1-target encapsulation: Ok(same secret, {that right}) iff the right's secret is activated",
+  bounds=K_BOUNDS + "; master key with that 1 right x 1 secret, activation flag symbolic",
+  covers=["right activated", "right disabled"])
 H("h_select_subkeys_mode", "primitives_model", ["C11", "C09"], "quick", build="model", unwind=4, timeout=1500, loops=SMALL_CMP,
   desc="MasterPublicKey::select_subkeys: the encapsulation is hybridized iff every targeted right is; a right with no "
        "published key is an error",
@@ -133,6 +154,15 @@ H("v_generate_user_id_relation", "primitives_model", ["C17", "C16"], "quick", bu
 # (three harnesses on `sign` -- f_verify_detects_value_changes, f_sign_order_matters, f_sign_reframing_chain_split,
 # still in harness/primitives_model.rs -- exhausted 36 GB both over the oracle and with Kmac stubbed to a ghost byte
 # stream: the per-field `serialize()` calls through Serializer's Zeroizing<Vec<u8>> dominate. Not registered.)
+
+H("f_sign_stream_layout", "primitives_model", ["C08"], "quick", build="model", unwind=4, timeout=1500, loops=SMALL_CMP,
+  desc="what sign() feeds to the MAC for the key {[n]:[k]} with marker a: exactly the 3 bytes a, n, k (Kmac::update stubbed "
+       "to a ghost byte stream) -- i.e. markers, names and secrets are concatenated without any length framing",
+  bounds="1 marker, 1 right with a 1-byte name, 1 classic secret; all values symbolic", covers=["signed"])
+H("f_sign_reframing_name_vs_chain", "primitives_model", ["C08"], "quick", build="model", unwind=4, timeout=1500, loops=SMALL_CMP,
+  desc="the key {'':[x,k]} (empty name, chain of 2) must NOT feed the MAC the bytes a, x, k that the different key "
+       "{[x]:[k]} feeds it (f_sign_stream_layout): same MAC input = same signature for two different arrangements",
+  bounds="1 marker, empty right name, chain of 2 classic secrets; all values symbolic", covers=["signed"])
 
 # ================================================================ key layer over models (no hashing)
 KL = "master key built by struct literal: "
@@ -161,6 +191,9 @@ for n, ln, tier in [("k_rekey_chain1", 1, "quick"), ("k_rekey_chain2", 2, "thoro
 H("k_mpk_publishes_activated_fronts", "keys_model", ["C06", "C04", "C11", "C17"], "quick", unwind=4, covers=["one right disabled"],
   desc="mpk(): publishes h*front.sk with the front's flavour iff the FRONT is activated; tracers published in order",
   bounds=KL + "2 rights (chains of 2 and 1), activation flags and flavour symbolic", **dict(_k, timeout=1500))
+H("k_mpk_front_single_right", "keys_model", ["C06", "C04"], "quick", unwind=4, covers=["front disabled, older secret activated"],
+  desc="mpk(): one right, chain of 2: key published iff the FRONT secret is activated, and it is the front's image",
+  bounds=KL + "1 right, chain of 2, front flag symbolic", **_k)
 for n, tier in [("k_rekey_unknown_last", "quick"), ("k_rekey_unknown_first", "thorough")]:
     H(n, "keys_model", ["C10", "C09"], tier, unwind=4, covers=["reached"],
       desc="rekey over {held, unknown}: Err, and no right was rotated (both processing orders)",
@@ -181,6 +214,10 @@ for n, tier in [("k_update_fails_bad_first", "quick"), ("k_update_fails_bad_last
     H(n, "keys_model", ["C10", "C09"], tier, unwind=4, covers=["reached"],
       desc="update_msk with a right born DecryptOnly: Err, and the master secrets are exactly as before",
       bounds=KL + "1 right with 2 secrets; universe of 2 rights, both processing orders", **_k)
+H("k_keygen_registers_valid_id", "keys_model", ["C17", "C09", "C04"], "quick", unwind=4, covers=["reached"],
+  desc="usk_keygen: Ok; id registered and satisfying the tracing relation; tracer points embedded in order; exactly the newest secret of the right",
+  bounds=KL + "1 right with 2 secrets, tracers (1,2), binding scalar and RNG symbolic", **dict(_k, timeout=1500))
+# (k_keygen_unknown_right_atomic in harness/keys_model.rs timed out at 1500 s on the error path; not registered)
 _heavy = dict(build="model", timeout=1800, loops=SMALL_CMP, heavy=True)
 H("k_refresh_ok_keep", "keys_model", ["C09", "C04", "C17"], "quick", unwind=4, covers=["reached"],
   desc="refresh(keep_old=true) of an issued key after a rekey: Ok, id kept, newest secret first, old one kept",
@@ -188,6 +225,9 @@ H("k_refresh_ok_keep", "keys_model", ["C09", "C04", "C17"], "quick", unwind=4, c
 H("k_refresh_unknown_id_keep", "keys_model", ["C10", "C17", "C08"], "quick", unwind=4, covers=["reached"],
   desc="refresh of a key whose id is not registered: Err, user key (id, secrets) and master key unchanged",
   bounds=KL + "1 right, id not in the registered set (concrete markers), symbolic secrets", **_heavy)
+H("k_refresh_only_right_deleted_nokeep", "keys_model", ["C09", "C05"], "quick", unwind=4, covers=["reached"],
+  desc="refresh(keep_old=false) of an issued key whose only right was deleted from the master key: Ok, right dropped",
+  bounds=KL + "no right left in the master key, user key with 1 right (the empty right), registered concrete id", **_heavy)
 for n in ["k_refresh_ok_nokeep", "k_refresh_deleted_keep", "k_refresh_deleted_nokeep", "k_refresh_unknown_id_nokeep"]:
     H(n, "keys_model", ["C09", "C10"], "thorough", unwind=4, covers=["reached"],
       desc="refresh through the public primitive (other flag / a right deleted since)", seedable=False,
@@ -207,6 +247,10 @@ H("q_attr_split_and_trim", "access_policy", ["C15"], "thorough", build="real", u
 # harness/serialization_model.rs; every one of them timed out at 1500 s: Serializer/Deserializer go through
 # Zeroizing<Vec<u8>> / io::Read on heap buffers. Not registered; C12 and C13 are not applicable.)
 _z = dict(build="model", timeout=900, loops=CMP34)
+for _n, _L, _tier in [("u_parse_userid", 6, "quick"), ("u_parse_tpk", 6, "quick")]:
+    H(_n, "serialization_model", ["C14"], _tier, unwind=4, covers=["some input parses", "some input is rejected"], seedable=False,
+      desc="T::read on arbitrary bytes: no panic, loops end, Vec::with_capacity requests stay proportional to the input",
+      bounds="every byte string of <= %d bytes" % _L, **dict(_z, timeout=1500))
 H("u_use_degenerate_values", "serialization_model", ["C14"], "quick", unwind=4,
   covers=["parsed an encapsulation without traps"],
   desc="values only a parser can build (no trap, empty id, no tracer): read succeeds and the tracing_level()/count() "
@@ -222,15 +266,26 @@ H("e_attribute_ids_never_shared", "policy_model", ["C03"], "thorough", unwind=5,
   desc="AccessStructure::add_attribute after a deletion: the new attribute's id differs from the id of every live attribute",
   bounds="1 anarchy dimension (1-byte names), sequence add a, add b, del (a or b, symbolic), add c (timed out at 1500 s "
          "during development: String-keyed maps of maps; reported as inconclusive when it does again)", **_p)
+# (s_restrict_hierarchy_and_anarchy, e_hierarchy_add_after_and_errors, q_dnf_* in harness/policy_model.rs: String-keyed
+# Dict / boxed policy trees; all timed out at 1500 s. Not registered.)
 H("h_bitor_tables", "policy_model", ["C11", "C06"], "quick", unwind=2, covers=["reached"],
   desc="EncryptionHint::bitor / AttributeStatus::bitor / bool conversions: full truth tables (hint OR, status AND)",
   bounds="all 4 x 4 combinations (symbolic)", **_p)
 
+# development-only entries (not in CHECKS / MANIFEST): harnesses that did not fit, kept reachable for profiling
+for _n in ["z_xenc_roundtrip", "z_usk_roundtrip", "z_msk_roundtrip", "z_mpk_roundtrip", "x_header_frames",
+           "u_parse_xenc", "u_parse_usk"]:
+    H(_n, "serialization_model", ["DEV"], "quick", build="model", unwind=4, timeout=1500, loops=CMP34, desc="dev", bounds="dev")
+for _n in ["f_verify_detects_value_changes", "f_sign_order_matters", "f_sign_reframing_chain_split"]:
+    H(_n, "primitives_model", ["DEV"], "quick", build="model", unwind=4, timeout=1500, loops=SMALL_CMP, desc="dev", bounds="dev")
+
 CHECKS = {
+    "DEV": dict(bounds_note="development only", outside="-"),
+    "ALL": dict(bounds_note="development only: every registered harness (use with --only)", outside="-"),
     "C01": dict(bounds_note="L-kem over models (1 target x 1 secret, tracing level 1) + L-iter on RevisionVec<u8,u8> shapes",
                 outside="policy expansion (rights of user/encryption policies), >1 target, real curves / ML-KEM / Keccak"),
     "C02": dict(bounds_note="S-kem over models: 1 target, user key with 1 non-matching secret",
-                outside="policy expansion / Dimension::restrict, several rights per key, real primitives"),
+                outside="policy expansion / Dimension::restrict (harness timed out), several rights per key, real primitives"),
     "C03": dict(bounds_note="Dict<u8,u8> with 3 entries (remove / rename); key layer drops rights outside the structure (refresh, update_msk)",
                 outside="attribute id allocation in AccessStructure::add_attribute (harness times out, thorough tier only), hierarchies with `after`, interleaving with encapsulations"),
     "C04": dict(bounds_note="RevisionVec shapes <= 3 chains x <= 3; refresh_coordinate_keys over histories of 4 secrets; rekey/mpk on 1-2 rights",
@@ -239,24 +294,26 @@ CHECKS = {
                 outside="longer histories, deletion through the access structure (policy layer), end-to-end decaps"),
     "C06": dict(bounds_note="one step from an arbitrary state: rekey, update_msk, mpk, MSK round trip, with symbolic activation flags",
                 outside="encaps error path through the policy layer; histories are covered inductively per operation, not enumerated"),
-    "C07": dict(bounds_note="single-component tamper of a classic 1-target encapsulation",
+    "C07": dict(bounds_note="single-component tamper (tag byte / masked-seed byte / trap) of a classic 1-target encapsulation",
                 outside="hybridized encapsulations, several targets, structural rearrangements (swap/drop/duplicate), AES-GCM layer"),
-    "C08": dict(bounds_note="refresh of a key whose id is not registered: refused, nothing modified (1 right, concrete ids, symbolic secrets)",
-                outside="the MAC itself: which arrangements of rights/secrets share a signature (sign() did not fit, see DESIGN section 7), altered signatures, keys of another master key"),
+    "C08": dict(bounds_note="the byte stream sign() feeds to the MAC for two one-right keys (one sign call per query); refresh of a key whose id is not registered",
+                outside="verify() on altered signatures (KMAC is a trusted PRF), hybridized secrets, several rights, keys of another master key"),
     "C09": dict(bounds_note="error/success contract of rekey, update_msk, refresh, select_subkeys on 1-2 rights",
                 outside="AccessStructure edit contracts, usk_keygen, every reachable state (states of the stated shapes only)"),
     "C10": dict(bounds_note="every failing step of rekey / update_msk / refresh(unknown id) in both processing orders",
-                outside="usk_keygen, failures caused by serialization errors (unreachable), states with >2 rights"),
+                outside="failures caused by serialization errors (unreachable), states with >2 rights"),
     "C11": dict(bounds_note="hint algebra tables; flavour through rekey/update/mpk/serialization; encapsulation mode selection",
                 outside="combine() over a structure (policy layer), E_j bound into the tag for hybridized encapsulations"),
-    "C14": dict(bounds_note="accessors on the degenerate values a parser can return (no trap / empty id / no tracer); revision iterator on a key without chains",
-                outside="the parsers on arbitrary bytes and pre-allocation from untrusted counts (harnesses timed out, see DESIGN section 7), wall-clock/RSS of a real process"),
+    "C14": dict(bounds_note="UserId / TracingPublicKey parsers on every byte string <= 6 bytes; accessors and decaps on degenerate parsed values; revision iterator on a key without chains",
+                outside="XEnc / USK parsers beyond the thorough-tier lengths, MPK/MSK/AccessStructure/EncryptedHeader parsers, read_vec's vec![0; len] in the dependency, wall-clock/RSS of a real process"),
     "C15": dict(bounds_note="find_matching_closing_parenthesis on all UTF-8 strings <= 4 bytes; QualifiedAttribute::try_from <= 5 bytes (thorough)",
-                outside="AccessPolicy::parse itself (recursive; not tractable), to_dnf equivalence, precedence"),
-    "C16": dict(bounds_note="two consecutive generate_user_id calls with symbolic RNG",
-                outside="encapsulation/nonce freshness, statistical quality of the CSPRNG, threads"),
+                outside="AccessPolicy::parse itself and to_dnf equivalence (recursive boxed trees of Strings: harnesses timed out), precedence"),
+    "C16": dict(bounds_note="two c_encaps calls with different seeds (1 target); two consecutive generate_user_id calls with symbolic RNG",
+                outside="AEAD nonce freshness, rekey freshness, statistical quality of the CSPRNG, threads"),
+    "C18": dict(bounds_note="full_decaps on an honest classic 1-target encapsulation, master key with that right (flag symbolic)",
+                outside="several rights/revisions, hybridized, pruned or deleted rights, the recaps = full_decaps + encaps composition"),
     "C17": dict(bounds_note="generate_user_id / refresh_id with tracing level 1; tracers in mpk; ids through MSK/USK round trips",
-                outside="usk_keygen, tracing levels > 1"),
+                outside="tracing levels > 1, histories of several keys"),
 }
 
 
@@ -274,7 +331,7 @@ def sites_for(hs):
 
 
 def select(prop, tier, seed=0):
-    names = [h for h, s in HARNESSES.items() if prop in s["props"]]
+    names = [h for h, s in HARNESSES.items() if prop in s["props"] or prop == "ALL"]
     quick = [h for h in names if HARNESSES[h]["tier"] == "quick"]
     thorough = [h for h in names if HARNESSES[h]["tier"] == "thorough"]
     if tier == "thorough":
